@@ -2,6 +2,7 @@ package main
 
 import (
 	"fmt"
+	"golang.org/x/tools/go/ssa"
 	"strings"
 )
 
@@ -18,7 +19,7 @@ func flattenSum(t *Term) []*Term {
 // voteVerified: the path carries VerifySignature(...) == true for this vote's
 // extension signature, under the key stored for the same address, over the
 // length-delimited CanonicalVoteExtension{chainID, height, round, this vote's extension}.
-func voteVerified(p *Path, vote, addrKey string) bool {
+func voteVerified(p *Path, vote, addrKey, encoder string) bool {
 	for i := range p.Events {
 		ev := &p.Events[i]
 		if ev.Kind != EvFact || !ev.Pol || ev.Cond.Op != "call" || !strings.HasSuffix(ev.Cond.Name, "PubKey).VerifySignature") {
@@ -32,7 +33,7 @@ func voteVerified(p *Path, vote, addrKey string) bool {
 		pkOK := strings.Contains(pk.Key(), "PubKeyFromProto((opchild/l2connect.ValidatorStore).GetPubKeyByConsAddr(valStore, ctx, "+addrKey+").0).0")
 		// message: marshal closure over &cve
 		msgOK := false
-		if msg.Op == "extract" && msg.Name == "0" && msg.Args[0].Op == "call" && strings.Contains(msg.Args[0].Name, "ValidateVoteExtensions$1") {
+		if msg.Op == "extract" && msg.Name == "0" && msg.Args[0].Op == "call" && strings.Contains(msg.Args[0].Name, encoder) {
 			for j := 0; j < i; j++ {
 				e2 := &p.Events[j]
 				if e2.Kind == EvCall && e2.Call.String() == msg.Args[0].String() && len(e2.ArgVals) > 0 && e2.ArgVals[0] != nil {
@@ -47,6 +48,38 @@ func voteVerified(p *Path, vote, addrKey string) bool {
 		}
 	}
 	return false
+}
+
+// signBytesEncoder: the module function (a closure of ValidateVoteExtensions or a
+// package-level helper) that turns the canonical vote extension into sign bytes:
+// the one callee of ValidateVoteExtensions with signature func(proto.Message) ([]byte, error).
+func signBytesEncoder(c *Ctx) *ssa.Function {
+	fn := c.Func("opchild/l2connect", "ValidateVoteExtensions")
+	var found *ssa.Function
+	consider := func(f *ssa.Function) {
+		if f == nil || f.Blocks == nil || found != nil {
+			return
+		}
+		sig := f.Signature
+		if sig.Params().Len() == 1 && sig.Results().Len() == 2 && strings.HasSuffix(sig.Params().At(0).Type().String(), "proto.Message") &&
+			sig.Results().At(0).Type().String() == "[]byte" && sig.Results().At(1).Type().String() == "error" {
+			found = f
+		}
+	}
+	for _, a := range fn.AnonFuncs {
+		consider(a)
+	}
+	for _, b := range fn.Blocks {
+		for _, in := range b.Instrs {
+			if ci, ok := in.(ssa.CallInstruction); ok {
+				consider(ci.Common().StaticCallee())
+			}
+		}
+	}
+	if found == nil {
+		panic(anchorErr{"sign-bytes encoder of ValidateVoteExtensions (func(proto.Message) ([]byte, error))"})
+	}
+	return found
 }
 
 func propC15(c *Ctx) {
@@ -65,7 +98,9 @@ func propC15(c *Ctx) {
 		for _, p := range c.Paths(fn, PO{Params: hParams, NoInline: []string{".Validate", "checkBridgeExecutorPermission", "ApplyOracleUpdate"}}) {
 			o.Paths++
 			o.Facts += p.NFacts()
-			for _, i := range p.Find(func(ev *Event) bool { return ev.Kind == EvCall && strings.HasSuffix(ev.Call.Name, "Keeper).ApplyOracleUpdate") }) {
+			for _, i := range p.Find(func(ev *Event) bool {
+				return ev.Kind == EvCall && strings.HasSuffix(ev.Call.Name, "Keeper).ApplyOracleUpdate")
+			}) {
 				o.Sites++
 				ev := &p.Events[i]
 				a := ev.Call.Args
@@ -97,7 +132,9 @@ func propC15(c *Ctx) {
 		o2 := c.Ob("C15.R1", "ApplyOracleUpdate forwards (height, bytes) unchanged to L2OracleHandler.UpdateOracle")
 		for _, p := range c.Paths(ap, PO{Params: []string{"k", "ctx", "height", "bz"}, NoInline: []string{"L2OracleHandler).UpdateOracle"}}) {
 			o2.Paths++
-			for _, i := range p.Find(func(ev *Event) bool { return ev.Kind == EvCall && strings.HasSuffix(ev.Call.Name, "L2OracleHandler).UpdateOracle") }) {
+			for _, i := range p.Find(func(ev *Event) bool {
+				return ev.Kind == EvCall && strings.HasSuffix(ev.Call.Name, "L2OracleHandler).UpdateOracle")
+			}) {
 				o2.Sites++
 				a := p.Events[i].Call.Args
 				if a[2].Key() != "height" || a[3].Key() != "bz" || p.Ret[0].String() != p.Events[i].Call.String() {
@@ -198,7 +235,8 @@ func propC15(c *Ctx) {
 	c.Rule("C15.R3", func() {
 		fn := c.Func("opchild/l2connect", "ValidateVoteExtensions")
 		o := c.Ob("C15.R3", "ValidateVoteExtensions: power counted only for known validators' commit votes with a verified extension signature; quorum = total > 0 and sum >= 2*total/3 + 1")
-		po := PO{Params: []string{"ctx", "valStore", "height", "chainID", "extCommit"}, Visits: 3, NoInline: []string{"ValidateVoteExtensions$1"}, Pure: []string{"ValidateVoteExtensions$1"}}
+		encName := funcName(signBytesEncoder(c))
+		po := PO{Params: []string{"ctx", "valStore", "height", "chainID", "extCommit"}, Visits: 3, NoInline: []string{encName}, Pure: []string{encName}}
 		total := "(sdkmath.Int).Int64((opchild/l2connect.ValidatorStore).TotalBondedTokens(valStore, ctx).0)"
 		nOK, nCounted := 0, 0
 		for _, p := range c.Paths(fn, po) {
@@ -256,7 +294,7 @@ func propC15(c *Ctx) {
 				}
 				known := p.factIs(len(p.Events), "("+pw.String()+".1 == nil)", true)
 				commit := p.HasFact(len(p.Events), func(a *Term, pol bool) bool { return pol && eqAtom(a, vote+".BlockIdFlag", "2") })
-				verified := voteVerified(p, vote, addr.Key())
+				verified := voteVerified(p, vote, addr.Key(), encName)
 				if !known || !commit || !verified {
 					o.Fail(c.W.Pos(fn.Pos()), fmt.Sprintf("power of %s counted without: validator in stored set [%v], commit flag [%v], verified signature over (chain id, height, round, extension) with the stored key [%v]", vote, known, commit, verified), c.Dump(p, -1))
 				}
@@ -290,7 +328,7 @@ func propC15(c *Ctx) {
 				nonCommit := p.HasFact(len(p.Events), func(a *Term, pol bool) bool { return !pol && eqAtom(a, vote+".BlockIdFlag", "2") })
 				rel, n := p.Relation(len(p.Events), keyIs("builtin.len("+vote+".VoteExtension)"), keyIs("0"))
 				emptyExt := n > 0 && rel == rEQ
-				verified := voteVerified(p, vote, vote+".Validator.Address")
+				verified := voteVerified(p, vote, vote+".Validator.Address", encName)
 				if !(unknown || nonCommit && emptyExt || verified) {
 					o3.Fail(c.W.Pos(fn.Pos()), fmt.Sprintf("%s passes validation unclassified: unknown validator [%v], non-commit [%v] with empty extension [%v], verified signature [%v]", vote, unknown, nonCommit, emptyExt, verified), c.Dump(p, -1))
 				}
@@ -300,7 +338,7 @@ func propC15(c *Ctx) {
 			o3.Fail(c.W.Pos(fn.Pos()), "no iterated vote on any accepting path (floor 1)", nil)
 		}
 		// the marshal closure encodes exactly its argument
-		mf := anonOf(c, fn, 0)
+		mf := signBytesEncoder(c)
 		o2 := c.Ob("C15.R3", "sign-bytes closure: length-delimited encoding of exactly the message it is given")
 		for _, p := range c.Paths(mf, PO{Params: []string{"msg"}}) {
 			o2.Paths++
@@ -325,7 +363,9 @@ func propC15(c *Ctx) {
 		for _, p := range c.Paths(fn, PO{Params: []string{"ctx", "ok", "updatedTime", "prices"}, Visits: 3}) {
 			o.Paths++
 			o.Facts += p.NFacts()
-			for _, i := range p.Find(func(ev *Event) bool { return ev.Kind == EvCall && strings.HasSuffix(ev.Call.Name, "OracleKeeper).SetPriceForCurrencyPair") }) {
+			for _, i := range p.Find(func(ev *Event) bool {
+				return ev.Kind == EvCall && strings.HasSuffix(ev.Call.Name, "OracleKeeper).SetPriceForCurrencyPair")
+			}) {
 				o.Sites++
 				ev := &p.Events[i]
 				cp := ev.Call.Args[2]
@@ -367,8 +407,10 @@ func propC15(c *Ctx) {
 		o2 := c.Ob("C15.R4", "SetPriceForCurrencyPair is called only from WritePrices; no map range in the oracle path")
 		for _, s := range eff.Where(func(s *Site) bool { return s.Kind == SIface && s.Method == "SetPriceForCurrencyPair" }) {
 			o2.Sites++
-			if fnShort(s.Root()) != "opchild/l2connect.WritePrices" {
-				o2.Fail(c.W.Pos(s.Pos), "price written from "+fnShort(s.Root()), nil)
+			for _, r := range eff.OwnerNames(s) {
+				if r != "opchild/l2connect.WritePrices" {
+					o2.Fail(c.W.Pos(s.Pos), "price written from "+r+attributedNote(s, r), nil)
+				}
 			}
 		}
 		for _, s := range eff.ReachSites(c.Method(childKeeper, "L2OracleHandler", "UpdateOracle"), func(s *Site) bool { return s.Kind == SMapIter }) {
@@ -378,13 +420,13 @@ func propC15(c *Ctx) {
 
 	c.Rule("C15.R6", func() {
 		errorDiscipline(c, "C15.R6", "Keeper.UpdateHostValidatorSet", c.Method(childKeeper, "Keeper", "UpdateHostValidatorSet"), PO{Params: []string{"k", "ctx", "clientID", "height", "vs"}, Visits: 3})
-		errorDiscipline(c, "C15.R6", "L2OracleHandler.UpdateOracle", c.Method(childKeeper, "L2OracleHandler", "UpdateOracle"), PO{Params: []string{"k", "ctx", "height", "bz"}, Visits: 2, NoInline: []string{"ValidateVoteExtensions$1"}, Pure: []string{"ValidateVoteExtensions$1"}})
+		errorDiscipline(c, "C15.R6", "L2OracleHandler.UpdateOracle", c.Method(childKeeper, "L2OracleHandler", "UpdateOracle"), PO{Params: []string{"k", "ctx", "height", "bz"}, Visits: 2, NoInline: []string{funcName(signBytesEncoder(c))}, Pure: []string{funcName(signBytesEncoder(c))}})
 	})
 
 	c.Rule("C15.R5", func() {
 		c.writersTable("C15.R5", "opchild/keeper.HostValidatorStore", "validators", setOf("Set"), []string{"(opchild/keeper.HostValidatorStore).SetValidator"})
-		c.writersTable("C15.R5", "opchild/keeper.HostValidatorStore", "validators", setOf("Remove", "Clear"), []string{"(opchild/keeper.HostValidatorStore).DeleteAllValidators"})
-		c.writersTable("C15.R5", "opchild/keeper.HostValidatorStore", "lastHeight", setOf("Set", "Remove"), []string{"(opchild/keeper.HostValidatorStore).SetLastHeight"})
+		c.writersTable("C15.R5", "opchild/keeper.HostValidatorStore", "validators", setOf("Remove", "Clear"), []string{"(*opchild/keeper.HostValidatorStore).UpdateValidators"})
+		c.writersTable("C15.R5", "opchild/keeper.HostValidatorStore", "lastHeight", setOf("Set", "Remove"), []string{"(*opchild/keeper.HostValidatorStore).UpdateValidators"})
 		for _, m := range []string{"SetValidator", "DeleteAllValidators", "SetLastHeight"} {
 			callersTable(c, "C15.R5", c.Method(childKeeper, "HostValidatorStore", m), []string{"(*opchild/keeper.HostValidatorStore).UpdateValidators"})
 		}
@@ -409,9 +451,47 @@ func propC15(c *Ctx) {
 					o.Fail(c.evPos(ev), "records height "+ev.Call.Args[2].Key(), c.Dump(p, i))
 				}
 			}
+			// replaced, not merged: every SetValidator / SetLastHeight comes after an
+			// unconditional DeleteAllValidators on the same path, and each stored record is
+			// built from the incoming set's own element (key, power)
+			firstDel := -1
+			for i := range p.Events {
+				ev := &p.Events[i]
+				if ev.Kind == EvCall && strings.HasSuffix(ev.Call.Name, "HostValidatorStore).DeleteAllValidators") && firstDel < 0 {
+					firstDel = i
+				}
+				if ev.Kind != EvCall || !(strings.HasSuffix(ev.Call.Name, "HostValidatorStore).SetValidator") || strings.HasSuffix(ev.Call.Name, "HostValidatorStore).SetLastHeight")) {
+					continue
+				}
+				if firstDel < 0 || !p.factIs(i, "("+p.Events[firstDel].Call.String()+" == nil)", true) {
+					o.Fail(c.evPos(ev), methodOf(ev.Call.Name)+" without a preceding successful DeleteAllValidators: the stored host set is merged with the new one instead of replaced (retired validators keep their key and power)", c.Dump(p, i))
+				}
+				if strings.HasSuffix(ev.Call.Name, "SetValidator") {
+					v := ev.Call.Args[2]
+					el := ""
+					v.Walk(func(x *Term) bool {
+						if k := x.Key(); el == "" && strings.HasPrefix(k, "(*cmtproto.ValidatorSet).GetValidators(vs)[") && strings.HasSuffix(k, ".PubKey") {
+							el = strings.TrimSuffix(k, ".PubKey")
+						}
+						return el == ""
+					})
+					if el == "" || !v.Mentions(el+".VotingPower") {
+						o.Fail(c.evPos(ev), "stored host validator "+trunc(v.Key(), 160)+" is not built from one element's (PubKey, VotingPower) of the incoming set", c.Dump(p, i))
+					}
+				}
+			}
 			if p.OK() && !p.Panic {
 				rel, n := p.Relation(len(p.Events), keyIs(lh), keyIs("height"))
-				sl := p.Find(func(ev *Event) bool { return ev.Kind == EvCall && strings.HasSuffix(ev.Call.Name, "HostValidatorStore).SetLastHeight") })
+				sl := p.Find(func(ev *Event) bool {
+					return ev.Kind == EvCall && strings.HasSuffix(ev.Call.Name, "HostValidatorStore).SetLastHeight")
+				})
+				// every element of the incoming set is stored
+				nSet := len(p.Find(func(ev *Event) bool {
+					return ev.Kind == EvCall && strings.HasSuffix(ev.Call.Name, "HostValidatorStore).SetValidator")
+				}))
+				if n > 0 && rel == rLT && !factKeyIs(p, len(p.Events), fmt.Sprintf("(%d < builtin.len((*cmtproto.ValidatorSet).GetValidators(vs)))", nSet), false) {
+					o.Fail(c.W.Pos(uv.Pos()), fmt.Sprintf("accepting path stores %d validators without having reached the end of the incoming set", nSet), c.Dump(p, -1))
+				}
 				if n > 0 && rel == rLT && len(sl) != 1 {
 					o.Fail(c.W.Pos(uv.Pos()), "set replaced without recording the new height", c.Dump(p, -1))
 				}
@@ -420,12 +500,32 @@ func propC15(c *Ctx) {
 		if o.Sites == 0 {
 			o.Fail(c.W.Pos(uv.Pos()), "no store write found", nil)
 		}
+		da := c.Method(childKeeper, "HostValidatorStore", "DeleteAllValidators")
+		o3 := c.Ob("C15.R5", "DeleteAllValidators clears the whole host validator map (nil range) and returns the store error")
+		for _, p := range c.Paths(da, PO{Params: []string{"hv", "ctx"}}) {
+			o3.Paths++
+			for _, i := range collEvents(p, len(p.Events), "validators", "Clear") {
+				o3.Sites++
+				ev := &p.Events[i]
+				if !ev.Call.Args[2].IsNil() {
+					o3.Fail(c.evPos(ev), "clears only the range "+trunc(ev.Call.Args[2].Key(), 100), nil)
+				}
+				if len(p.Ret) != 1 || p.Ret[0].String() != ev.Call.String() {
+					o3.Fail(c.evPos(ev), "the Clear error is not returned", nil)
+				}
+			}
+		}
+		if o3.Sites == 0 {
+			o3.Fail(c.W.Pos(da.Pos()), "no Clear on the host validator map", nil)
+		}
 		uh := c.Method(childKeeper, "Keeper", "UpdateHostValidatorSet")
 		o2 := c.Ob("C15.R5", "UpdateHostValidatorSet: only for a non-empty client id equal to the bound L1 client id")
 		for _, p := range c.Paths(uh, PO{Params: []string{"k", "ctx", "clientID", "height", "vs"}, NoInline: []string{"UpdateValidators"}}) {
 			o2.Paths++
 			o2.Facts += p.NFacts()
-			for _, i := range p.Find(func(ev *Event) bool { return ev.Kind == EvCall && strings.HasSuffix(ev.Call.Name, "HostValidatorStore).UpdateValidators") }) {
+			for _, i := range p.Find(func(ev *Event) bool {
+				return ev.Kind == EvCall && strings.HasSuffix(ev.Call.Name, "HostValidatorStore).UpdateValidators")
+			}) {
 				o2.Sites++
 				ev := &p.Events[i]
 				nonEmpty := p.HasFact(i, func(a *Term, pol bool) bool { return !pol && eqAtom(a, "clientID", `""`) })
